@@ -26,7 +26,7 @@ def specs_for(ctx):
             tissue = {"kind": "equilibrium", "ncells": rng.choice([5, 8, 14, 25, 40]),
                       "mobius": rng.choice([0.0, 0.6, 1.2]), "noise": rng.choice([0, 0, 0.05, 0.3, 1.0])}
             k = rng.choice([1, 2, 3, 5, 9])
-        method = rng.choice(["default", "default", "default", "lsq", "lsq_linear", "fix_stress"] if not tissue.get("noise")
+        method = rng.choice(["default", "default", "default", "lsq", "lsq_linear", "fix_stress"] if tissue["kind"] == "equilibrium" and not tissue.get("noise")
                             else ["default", "default", "default", "lsq", "fix_stress"])
         if method in ("lsq", "lsq_linear") and tissue.get("ncells", 0) > 14:
             tissue["ncells"] = rng.choice([5, 8, 14]) if ctx.quick else rng.choice([8, 14, 25])
@@ -35,6 +35,16 @@ def specs_for(ctx):
                               "extent": 1.0 if tissue["kind"] == "equilibrium" else 10.0, "reflect": rng.random() < 0.3},
                       "build": {"limit": "inf", "fit": rng.choice(["dlite", "taubinSVD"])},
                       "solve": {"method": method, "allow_negatives": rng.random() < 0.5}})
+    # velocity right-hand sides (dynamic series): inconsistent or consistent systems with b != 0
+    for i in range(ctx.pick(16, 600)):
+        nframes = rng.choice([2, 3, 4])
+        tissue = {"kind": "equilibrium", "ncells": rng.choice([6, 10, 16]), "mobius": rng.choice([0.0, 0.8])} if rng.random() < 0.7 else \
+                 {"kind": "catalogue", "base": rng.choice(["hexflower", "hex33"]), "sagitta": rng.choice([None, 0.15]), "tseed": rng.randrange(10 ** 6)}
+        specs.append({"dynamic": True, "tissue": tissue, "k": rng.choice([1, 3, 6]), "seed": rng.randrange(10 ** 9), "want": ["C05"],
+                      "nframes": nframes, "when": rng.randrange(nframes), "step_frac": rng.choice([0.05, 0.2]),
+                      "sim": {"theta": rng.uniform(0, 2 * math.pi), "scale": 10 ** rng.uniform(-1, 1), "offset_sizes": rng.uniform(0, 2),
+                              "extent": 1.0 if tissue["kind"] == "equilibrium" else 10.0, "reflect": rng.random() < 0.3},
+                      "build": {"fit": rng.choice(["dlite", "taubinSVD"])}, "solve": {"method": rng.choice(["default", "default", "lsq"])}})
     return specs
 
 
